@@ -1,4 +1,4 @@
-import ApolloModel.Proofs.SchemaSerialize
+import ApolloModel.Proofs.SchemaSerialize4
 /-
 C12 — Schema serialization round-trips and preserves order.
 
@@ -11,15 +11,20 @@ Per type (any kind, any number of extensions, any well-formed body):
   `toAst_build_type`          re-building the definitions `to_ast` emits gives, without any diagnostic, the type
                               with every component list regrouped by origin in `extensions()` order (exact)
   `order_preserved_partial`   PARTIAL (guard `Consistent`): then every list is unchanged — same order
+  `consistent_iff_order_preserved`  the guard is exact (necessary and sufficient)
   `toAst_build_type_partial`  the two combined: build (toAst t) = t
-  `C12_counterexample`        without the guard false: `type Q {f} extend type Q {a} extend type Q @d {b}`
-                              re-builds with fields f, b, a
-  `parts_preserved`, `toAst_fixpoint_partial`  second serialization = first, given that `extensions()` is
-                              unchanged by the regrouping (PARTIAL: that last fact is not proved in general)
-  `implicit_roots_spec`       the roots the builder generates when no `schema` definition is serialized are
-                              exactly the ones `to_ast` compared against when it decided to omit it
-The whole-schema round trip (types in map order, schema definition, directive definitions, built-ins) is tied
-by correspondence, not proved.
+  `C12_counterexample`, `C12_counterexample_is_built`  without the guard false, on a schema the builder produces
+  `extensions_stable`, `toAst_fixpoint`, `regroup_idempotent`  second serialization = first, for every type (full)
+Built schemas:
+  `built_types_grouped`       every type the builder produces from definitions with distinct positions has its
+                              lists grouped by origin in application order
+  `order_preserved_of_discovery_follows_application`  sufficient condition on built types
+Whole schema:
+  `toAst_build_schema`        explicit schema definition + extensions, new directive definitions, all non built-in
+                              types in map order: re-built exactly (regrouped), no diagnostics
+  `implicit_roots_spec`       implicit schema definition: the regenerated roots are the ones `to_ast` compared with
+Still tied by correspondence only: extensions of built-in types, redefined built-in directives, the
+implicit-schema case as a whole, `finishRaw` after the re-build.
 -/
 namespace Apollo.C12
 open Apollo.SchemaBuild Apollo.SchemaSerialize
@@ -94,15 +99,14 @@ theorem parts_preserved (cs : List Comp) (exts : List Pos) (hnd : exts.Nodup) :
   · unfold partOf; rw [filter_regroup_none]
   · intro e he; unfold partOf; rw [filter_regroup_some cs exts hnd e he]
 
-/-- the unconditional statement: serializing the re-built type gives the same definitions again -/
-def toAst_fixpoint : Prop := ∀ (t : TypeEntry), toAstType (regroupType t) = toAstType t
+/-- `extensions()` of a re-built (regrouped) body is `extensions()` of the body — for EVERY body. -/
+theorem extensions_stable (b : Body) : extensionsOf (regroupBody b) = extensionsOf b :=
+  extensionsOf_regroupBody b
 
-/-- PARTIAL (hypothesis `hext`: the regrouped body has the same `extensions()` order; true of the
-    counterexample below and checked on the implementation by the oracle's byte-identical re-serialization,
-    not proved in general). -/
-theorem toAst_fixpoint_partial (t : TypeEntry)
-    (hext : extensionsOf (regroupBody t.body) = extensionsOf t.body) :
-    toAstType (regroupType t) = toAstType t := by
+/-- Second serialization = first serialization, for every type (no hypothesis): serializing the re-built type
+    emits the same definition and the same extensions in the same order with the same contents. -/
+theorem toAst_fixpoint (t : TypeEntry) : toAstType (regroupType t) = toAstType t := by
+  have hext := extensionsOf_regroupBody t.body
   have hnd := firstOcc_nodup (extOrigins t.body)
   have pd := parts_preserved t.body.directives (extensionsOf t.body) hnd
   have pi := parts_preserved t.body.interfaces (extensionsOf t.body) hnd
@@ -119,8 +123,112 @@ theorem toAst_fixpoint_partial (t : TypeEntry)
     simp only [defOfBody, regroupBody, pd.2 e he, pi.2 e he, pm.2 e he]
   rw [hdef, hexts]
 
-example : toAstType (regroupType cexQ) = toAstType cexQ :=
-  toAst_fixpoint_partial cexQ (by decide +kernel)
+/-- … hence one round trip reaches a fixed point of the order as well: re-building twice = re-building once. -/
+theorem regroup_idempotent (b : Body) : regroupBody (regroupBody b) = regroupBody b := by
+  have hnd := firstOcc_nodup (extOrigins b)
+  have key : ∀ cs, regroup (extensionsOf b) (regroup (extensionsOf b) cs) = regroup (extensionsOf b) cs := by
+    intro cs
+    show (regroup (extensionsOf b) cs).filter (fun c => c.origin == none)
+        ++ (extensionsOf b).flatMap (fun e => (regroup (extensionsOf b) cs).filter (fun c => c.origin == some e))
+      = cs.filter (fun c => c.origin == none)
+        ++ (extensionsOf b).flatMap (fun e => cs.filter (fun c => c.origin == some e))
+    rw [filter_regroup_none]
+    congr 1
+    apply flatMap_congr_mem
+    intro e he
+    exact filter_regroup_some cs (extensionsOf b) hnd e he
+  show (⟨_, _, _⟩ : Body) = _
+  simp only [extensionsOf_regroupBody b]
+  simp only [regroupBody, key]
+
+/-! ### built schemas: grouped by application order; what the guard means -/
+
+/-- For ANY list of definitions with pairwise distinct positions (any interleaving of definitions, extensions,
+    collisions, kind mismatches, duplicates), every type in the builder's state has each component list
+    grouped by origin: the definition's components, then one block per extension, the blocks in the order
+    `P` in which the extensions were applied (queued ones first, in queue order). -/
+theorem built_types_grouped (adopt ignoreBuiltin : Bool) (srcs : List (List Def))
+    (hnd : (srcs.flatten.map (·.pos)).Nodup) :
+    ∀ t ∈ (addSources (Builder.new adopt ignoreBuiltin) srcs).types,
+      ∃ P : List Pos, P.Nodup ∧ (∀ p ∈ P, p ∈ srcs.flatten.map (·.pos)) ∧ GroupedBody P t.body := by
+  rw [addSources_flatten]
+  have := addDocument_inv srcs.flatten [] (Builder.new adopt ignoreBuiltin) (inv_new adopt ignoreBuiltin) (by simpa using hnd)
+  simpa using this.2
+
+/-- The guard of `order_preserved_partial` is exact: `Consistent` holds iff the round trip keeps every list. -/
+theorem consistent_iff_order_preserved (t : TypeEntry) : Consistent t.body ↔ regroupType t = t := by
+  rw [consistent_iff_regroup]
+  constructor
+  · intro h; unfold regroupType; rw [h]
+  · intro h
+    have := congrArg TypeEntry.body h
+    simpa [regroupType] using this
+
+/-- For a built type (lists grouped by the application order `P`): if `extensions()` discovers the
+    extensions in application order, the order is preserved.  Read on the source document: the guard can
+    only fail when an extension applied LATER is discovered EARLIER, i.e. it adds to an earlier kind of list
+    (directives before interfaces before fields/values/members) than every list an earlier extension adds to,
+    while the two share a list — e.g. `extend type Q { a }` followed by `extend type Q @d { b }`. -/
+theorem order_preserved_of_discovery_follows_application (t : TypeEntry) (P : List Pos) (hnd : P.Nodup)
+    (hg : GroupedBody P t.body) (hsub : (extensionsOf t.body).Sublist P) : regroupType t = t :=
+  order_preserved_partial t (consistent_of_grouped P t.body hnd hg hsub)
+
+/-- the source document of the counterexample: `type Q { f }`, `extend type Q { a }`, `extend type Q @d { b }` -/
+def cexDoc : List Def :=
+  [⟨.typeDef .object, "Q", 0, 5, [], [], [⟨"f", 9, 9, ""⟩]⟩,
+   ⟨.typeExt .object, "Q", 20, 32, [], [], [⟨"a", 29, 29, ""⟩]⟩,
+   ⟨.typeExt .object, "Q", 40, 52, [⟨"d", 50, 50, ""⟩], [], [⟨"b", 55, 55, ""⟩]⟩]
+
+/-- The counterexample is a built schema whose guard fails: the builder produces exactly `cexQ` from the
+    document, its lists are grouped by the application order [20, 40], but `extensions()` discovers [40, 20]
+    (the later extension carries the directive), which is not consistent with the field list. -/
+theorem C12_counterexample_is_built :
+    (addDocument (Builder.new false false) cexDoc).types.find? (fun t => t.name == "Q") = some cexQ
+    ∧ extensionsOf cexQ.body = [40, 20]
+    ∧ ¬ Consistent cexQ.body := by
+  refine ⟨by decide +kernel, by decide +kernel, ?_⟩
+  rw [consistent_iff_regroup]
+  decide +kernel
+
+-- `Consistent` is weaker than "discovered in application order": an extension adding only a member applied
+-- before one adding only a directive is discovered later, yet nothing is reordered (they share no list)
+example : Consistent (⟨[⟨"d", some 50, some 40, ""⟩], [], [⟨"a", some 29, some 20, ""⟩]⟩ : Body)
+    ∧ ¬ (extensionsOf (⟨[⟨"d", some 50, some 40, ""⟩], [], [⟨"a", some 29, some 20, ""⟩]⟩ : Body)).Sublist [20, 40] := by
+  refine ⟨(consistent_iff_regroup _).mpr (by decide +kernel), by decide +kernel⟩
+
+/-! ### the whole schema -/
+
+/-- `Schema::to_ast` re-built from a fresh builder, for a schema with an explicit `schema` definition, new
+    (not redefining built-in) directive definitions and untouched built-in types: the result has the same
+    `schema` definition (directives and root operations regrouped), the directive definitions in the same
+    order, the built-in types followed by the same types IN THE SAME ORDER, each regrouped — and no
+    diagnostic.  (`B`: the built-in entries of `s.types`, `U`: the others.) -/
+theorem toAst_build_schema (adopt ignoreBuiltin : Bool) (s : Builder) (B U : List TypeEntry) (p : Pos)
+    (htypes : s.types = B ++ U)
+    (hB : ∀ t ∈ B, t.builtin = true ∧ t.body = Body.empty)
+    (hU : ∀ t ∈ U, TypeWF t) (hUn : (U.map (·.name)).Nodup)
+    (hUb : ∀ t ∈ U, findType builtinTypes t.name = none)
+    (hDn : ((s.directiveDefs.filter (fun d => !d.builtin)).map (·.name)).Nodup)
+    (hDb : ∀ d ∈ s.directiveDefs.filter (fun d => !d.builtin), findDir builtinDirectives d.name = none)
+    (hsd : BodyWF (schemaBody s.schemaDef)) (hp : s.schemaDef.pos = some p)
+    (hexpl : implicitSchema s.schemaDef s.types = false) :
+    addDocument (Builder.new adopt ignoreBuiltin) (toAst s) =
+      { Builder.new adopt ignoreBuiltin with
+        schemaDef := ⟨some p, regroupBody (schemaBody s.schemaDef)⟩, schemaFound := true,
+        directiveDefs := builtinDirectives
+          ++ (s.directiveDefs.filter (fun d => !d.builtin)).map (fun d => ⟨d.name, some (d.pos.getD 0), false⟩),
+        types := builtinTypes ++ U.map regroupType } := by
+  have hBnil : B.flatMap toAstType = [] := by
+    apply List.flatMap_eq_nil_iff.mpr
+    intro t ht
+    obtain ⟨h1, h2⟩ := hB t ht
+    simp [toAstType, h1, h2, extensionsOf, extOrigins, Body.empty, firstOcc]
+  unfold toAst
+  rw [htypes, List.flatMap_append, hBnil, List.nil_append, ← htypes, addDocument_append, addDocument_append,
+    addDocument_toAstSchema _ _ _ p hsd hp hexpl rfl rfl,
+    addDocument_dirDefs _ _ hDn (by intro d hd; exact hDb d hd),
+    addDocument_toAstTypes U _ hU hUn (by intro t ht; exact hUb t ht) rfl]
+  rfl
 
 /-- When `to_ast` omits the `schema` definition it has checked, for each operation type, that the root is the
     default-named object type if there is one and absent otherwise; `add_implicit_root_types` produces exactly
